@@ -45,12 +45,26 @@ pub fn arb_string(src: &mut Src, max: usize) -> String {
         }
         _ => {
             let n = src.below(max + 1);
-            (0..n)
+            let mut s: String = (0..n)
                 .map(|_| {
                     let v = src.u32raw() % 0x11_0000;
                     char::from_u32(v).unwrap_or('\u{fffd}')
                 })
-                .collect()
+                .collect();
+            if src.chance(10) {
+                // rarely: a long run that crosses typical byte thresholds (127/128, 255/256, 1 KiB, 4 KiB), ASCII or multi-byte,
+                // followed by one more arbitrary character
+                let c = *src.pick(&['a', '_', 'é', '😀', '\u{800}']);
+                let k = [100usize, 126, 127, 128, 254, 255, 256, 1000, 1023, 1024, 4095, 5000][src.below(12)] + src.below(4);
+                for _ in 0..k / c.len_utf8() {
+                    s.push(c);
+                }
+                for _ in 0..src.below(4) {
+                    s.push('x');
+                }
+                s.push(char::from_u32(src.u32raw() % 0x11_0000).unwrap_or('z'));
+            }
+            s
         }
     }
 }
@@ -514,7 +528,7 @@ impl Property for C17 {
         "case = 1-8 calls, each to one Result-returning public API (10 metric/vector constructors, Desc::new, PullingGauge::new, \
          get_metric_with_label_values, get_metric_with, remove_label_values (shared and local vectors), remove, Registry::new_custom, \
          register/unregister on a registry and on the default registry, linear_buckets, exponential_buckets, TextEncoder encode / \
-         encode_utf8 / encode_to_string, ProtobufEncoder::encode) with arbitrary Unicode strings (<=64 chars), label lists/maps of \
+         encode_utf8 / encode_to_string, ProtobufEncoder::encode) with arbitrary Unicode strings (<=64 chars; 1% carry a run of 100-5000 bytes ending near 128 / 256 / 1024 / 4096), label lists/maps of \
          cardinality 0-6, arbitrary f64 parameters, arbitrary families (every MetricType, payload/type mismatch, empty names, no \
          samples) and a writer failing after k bytes. Oracle: no panic; Err/Ok as the recognisers and the helpers' documentation \
          prescribe; a refused write must surface as Err. Non-trivial: at least one call returned Err. Distinct = decoded choices."
